@@ -17,6 +17,7 @@ import (
 
 	"verif/internal/corpus"
 	"verif/internal/fw"
+	"verif/internal/gen"
 	"verif/internal/refl"
 )
 
@@ -443,4 +444,102 @@ func runC11(c *fw.Ctx) {
 		})
 	}
 	_ = reflect.TypeOf
+
+	// hand-built trees: every node type with all children present, with each optional child (and
+	// each list, and a function type's parameter list) absent in turn, and with present-but-empty
+	// field lists / blocks, wrapped into a file and restored
+	idx := 0
+	for _, t := range gen.NodeTypes() {
+		st := t.Elem()
+		if st.Name() == "Package" || st.Name() == "File" {
+			continue
+		}
+		variants := []string{"", "omit:FuncType.Params", "omit:FuncType.Results"}
+		for k := 0; k < st.NumField(); k++ {
+			sf := st.Field(k)
+			if sf.Name == "Decs" || sf.Name == "Obj" || sf.Name == "Scope" {
+				continue
+			}
+			if optionalChild[st.Name()+"."+sf.Name] || sf.Type.Kind() == reflect.Slice {
+				variants = append(variants, "omit:"+st.Name()+"."+sf.Name)
+			}
+			if sf.Type == reflect.TypeOf((*dst.FieldList)(nil)) || sf.Type == reflect.TypeOf((*dst.BlockStmt)(nil)) {
+				variants = append(variants, "empty:"+st.Name()+"."+sf.Name)
+			}
+		}
+		for _, v := range variants {
+			i := idx
+			idx++
+			if !c.Mine(i) {
+				continue
+			}
+			id := "built:" + st.Name() + "/" + v
+			c.Case(id, func() {
+				c.Observe("configs", "hand-built")
+				fl := &gen.Filler{}
+				if strings.HasPrefix(v, "omit:") {
+					fl.Omit = strings.TrimPrefix(v, "omit:")
+				} else if strings.HasPrefix(v, "empty:") {
+					fl.Empty = strings.TrimPrefix(v, "empty:")
+				}
+				df := c11Wrap(fl.Fill(t, 3))
+				if df == nil {
+					return
+				}
+				// the filled identifiers carry package paths (legal only at some places): cleared
+				dst.Inspect(df, func(n dst.Node) bool {
+					if id, ok := n.(*dst.Ident); ok {
+						id.Path = ""
+					}
+					return true
+				})
+				r := decorator.NewRestorer()
+				var rf *ast.File
+				var err error
+				if sig, _ := fw.Try(func() { rf, err = r.RestoreFile(df) }); sig != "" || err != nil {
+					c.Count("inconclusive_hand_built_tree_not_restorable:"+sig, 1)
+					return
+				}
+				c11Laws(c, id, "restorer", rf, df, r.Ast.Nodes, r.Dst.Nodes, "")
+				c.Count("hand_built_trees", 1)
+				c.Nontrivial(id)
+			})
+		}
+	}
+}
+
+// c11Wrap puts a node into a file at a place where its type is allowed.
+func c11Wrap(n dst.Node) *dst.File {
+	f := &dst.File{Name: dst.NewIdent("p")}
+	inFunc := func(s dst.Stmt) {
+		f.Decls = append(f.Decls, &dst.FuncDecl{Name: dst.NewIdent("f"), Type: &dst.FuncType{Func: true, Params: &dst.FieldList{Opening: true, Closing: true}}, Body: &dst.BlockStmt{List: []dst.Stmt{s}}})
+	}
+	asValue := func(e dst.Expr) {
+		f.Decls = append(f.Decls, &dst.GenDecl{Tok: token.VAR, Specs: []dst.Spec{&dst.ValueSpec{Names: []*dst.Ident{dst.NewIdent("_")}, Values: []dst.Expr{e}}}})
+	}
+	switch v := n.(type) {
+	case *dst.Field:
+		asValue(&dst.CompositeLit{Type: &dst.StructType{Fields: &dst.FieldList{Opening: true, Closing: true, List: []*dst.Field{v}}}})
+	case *dst.FieldList:
+		asValue(&dst.FuncLit{Type: &dst.FuncType{Func: true, Params: v}, Body: &dst.BlockStmt{}})
+	case *dst.CaseClause:
+		inFunc(&dst.SwitchStmt{Body: &dst.BlockStmt{List: []dst.Stmt{v}}})
+	case *dst.CommClause:
+		inFunc(&dst.SelectStmt{Body: &dst.BlockStmt{List: []dst.Stmt{v}}})
+	case *dst.ImportSpec:
+		f.Decls = append(f.Decls, &dst.GenDecl{Tok: token.IMPORT, Specs: []dst.Spec{v}})
+	case *dst.TypeSpec:
+		f.Decls = append(f.Decls, &dst.GenDecl{Tok: token.TYPE, Specs: []dst.Spec{v}})
+	case *dst.ValueSpec:
+		f.Decls = append(f.Decls, &dst.GenDecl{Tok: token.VAR, Specs: []dst.Spec{v}})
+	case dst.Decl:
+		f.Decls = append(f.Decls, v)
+	case dst.Stmt:
+		inFunc(v)
+	case dst.Expr:
+		asValue(v)
+	default:
+		return nil
+	}
+	return f
 }
